@@ -8,9 +8,12 @@ import (
 	"encoding/base64"
 	"encoding/binary"
 	"errors"
+	"fmt"
 	"io"
 	"math/big"
 	"sort"
+	"strings"
+	"testing/iotest"
 
 	"github.com/decred/dcrd/dcrec/secp256k1/v4"
 	"github.com/ipfs/go-cid"
@@ -216,6 +219,24 @@ func genContainer(c *Ctx) {
 					continue
 				}
 				c.Emit(tag, WList(WStr(f.name), WBytes(data), WList(facts...), WList(), expect), readBoth(f, data))
+				// what a byte-slice writer returned is the caller's: it is still the same container after other
+				// containers have been written (in every format) and read
+				if variant == 0 {
+					snapshot := append([]byte{}, data...)
+					for _, g := range ctnFmts {
+						w2 := container.NewWriter()
+						o := pool[c.R.Intn(len(pool))]
+						w2.AddSealed(o.c, o.b)
+						if d2, err := g.write(w2); err == nil {
+							_ = readBoth(g, d2)
+						}
+					}
+					held := readBoth(f, data)
+					if !bytes.Equal(snapshot, data) {
+						held = WList(WStr("the bytes returned by the writer changed after later writes"), held)
+					}
+					c.Emit(tag+"/held", WList(WStr(f.name), WBytes(snapshot), WList(facts...), WList(), expect), held)
+				}
 			}
 		}
 		if k == 0 {
@@ -419,6 +440,17 @@ func genCid(c *Ctx) {
 			if err != nil {
 				return WErr()
 			}
+			// the same stream through readers that hand over one byte at a time, and the last bytes together with EOF
+			for _, r := range []io.Reader{iotest.OneByteReader(bytes.NewReader(s.b)), iotest.DataErrReader(bytes.NewReader(s.b)),
+				iotest.DataErrReader(iotest.OneByteReader(bytes.NewReader(s.b))), iotest.HalfReader(bytes.NewReader(s.b))} {
+				_, id2, err := token.FromSealedReader(r)
+				if err != nil {
+					return WErr()
+				}
+				if !id2.Equals(id) {
+					return WStr("stream readers disagree on the cid")
+				}
+			}
 			return WBytes(id.Bytes())
 		})
 		c.Emit("cid/four-"+s.iss.name, WList(WStr("seal"), WBytes(dg[:])), WList(WBytes(s.c.Bytes()), c2, c3, c4))
@@ -431,12 +463,12 @@ func genCid(c *Ctx) {
 			case *delegation.Token:
 				_, id, err = delegation.FromSealed(s.b)
 				if err == nil {
-					_, id2, err = delegation.FromSealedReader(bytes.NewReader(s.b))
+					_, id2, err = delegation.FromSealedReader(iotest.DataErrReader(bytes.NewReader(s.b)))
 				}
 			default:
 				_, id, err = invocation.FromSealed(s.b)
 				if err == nil {
-					_, id2, err = invocation.FromSealedReader(bytes.NewReader(s.b))
+					_, id2, err = invocation.FromSealedReader(iotest.DataErrReader(bytes.NewReader(s.b)))
 				}
 			}
 			if err != nil || !id.Equals(id2) {
@@ -534,6 +566,66 @@ func genCid(c *Ctx) {
 			}
 		}
 	}
+	// sealed tokens of particular sizes (around 2^16 and 2^20 bytes, padded through a metadata string), alone
+	// and followed by one more byte: accepted / refused by every sealed entry point, and under which CID
+	keys := detKeys(c.Seed+1301, 1)
+	for _, target := range []int{1 << 16, 1 << 20} {
+		for _, delta := range []int{-1, 0, 1} {
+			want := target + delta
+			pad := want - 300
+			var sealed []byte
+			for tries := 0; tries < 6; tries++ {
+				tk, err := delegation.New(keys[0].did, keys[0].did, command.Command("/"), nil, delegation.WithMeta("pad", strings.Repeat("x", pad)),
+					delegation.WithNonce(bytes.Repeat([]byte{9}, 12)))
+				if err != nil {
+					break
+				}
+				b, _, err := tk.ToSealed(keys[0].priv)
+				if err != nil {
+					break
+				}
+				if len(b) == want {
+					sealed = b
+					break
+				}
+				pad += want - len(b)
+			}
+			if sealed == nil {
+				continue
+			}
+			dg := sha256.Sum256(sealed)
+			wantCid := append([]byte{1, 0x71, 0x12, 0x20}, dg[:]...)
+			for _, extra := range [][]byte{nil, {0x00}, {0xf6}, sealed[:7]} {
+				in := append(append([]byte{}, sealed...), extra...)
+				verdict := func(id cid.Cid, err error) string {
+					if err != nil {
+						return "refused"
+					}
+					if extra == nil && bytes.Equal(id.Bytes(), wantCid) {
+						return "accepted under the cid of the input"
+					}
+					return "accepted under another cid"
+				}
+				var vs []string
+				func() {
+					defer func() {
+						if r := recover(); r != nil {
+							vs = append(vs, "panic")
+						}
+					}()
+					_, id, err := token.FromSealed(in)
+					vs = append(vs, verdict(id, err))
+					_, id, err = token.FromSealedReader(bytes.NewReader(in))
+					vs = append(vs, verdict(id, err))
+					_, id, err = delegation.FromSealed(in)
+					vs = append(vs, verdict(id, err))
+					_, id, err = delegation.FromSealedReader(iotest.DataErrReader(bytes.NewReader(in)))
+					vs = append(vs, verdict(id, err))
+				}()
+				c.Emit(fmt.Sprintf("cid/sized/%d", want), WList(WStr("sized"), WInt(int64(want)), WBool(extra == nil)), WStrs(vs))
+			}
+		}
+	}
 }
 
 func curveOrder(name string) *big.Int {
@@ -613,6 +705,22 @@ func (s *failingSink) Write(p []byte) (int, error) {
 	return s.buf.Write(p)
 }
 
+// shortSink takes at most `room` bytes in total and reports shorter counts with a nil error afterwards.
+type shortSink struct {
+	room  int
+	short bool
+}
+
+func (s *shortSink) Write(p []byte) (int, error) {
+	n := len(p)
+	if n > s.room {
+		n = s.room
+		s.short = true
+	}
+	s.room -= n
+	return n, nil
+}
+
 func intsW(xs []int) W {
 	items := make([]W, len(xs))
 	for i, x := range xs {
@@ -663,6 +771,29 @@ func genStream(c *Ctx) {
 				}
 				return anyTokenW(tk), nil
 			}},
+			{"dagcbor-typed", func(r io.Reader) (W, error) {
+				switch s.t.(type) {
+				case *delegation.Token:
+					tk, err := delegation.FromDagCborReader(r)
+					if err != nil {
+						return WNull, err
+					}
+					return dlgFieldsW(tk), nil
+				default:
+					tk, err := invocation.FromDagCborReader(r)
+					if err != nil {
+						return WNull, err
+					}
+					return invFieldsW(tk), nil
+				}
+			}},
+			{"decode-reader", func(r io.Reader) (W, error) {
+				tk, err := token.DecodeReader(r, dagcbor.Decode)
+				if err != nil {
+					return WNull, err
+				}
+				return anyTokenW(tk), nil
+			}},
 		}
 		var swallowed, early []int
 		agree := true
@@ -680,6 +811,20 @@ func genStream(c *Ctx) {
 			}
 			if o, err := rd.f(&dataEOFReader{b: s.b}); err != nil || o != base {
 				agree = false
+			}
+			// the complete token followed by further bytes is not that token: refused by the stream reader as it is
+			// by the buffered call, whatever the chunking
+			for _, extra := range [][]byte{{0x00}, {0xf6}, s.b} {
+				in := append(append([]byte{}, s.b...), extra...)
+				for _, r := range []io.Reader{bytes.NewReader(in), iotest.OneByteReader(bytes.NewReader(in)), iotest.DataErrReader(bytes.NewReader(in))} {
+					if _, err := rd.f(r); err == nil {
+						agree = false
+					}
+				}
+			}
+			// a source that fails right after the last byte, instead of reporting the end
+			if _, err := rd.f(&faultReader{b: s.b, k: len(s.b), chunk: 5, err: errInjected}); err == nil {
+				swallowed = append(swallowed, ri*1000000+len(s.b))
 			}
 			for k := 0; k < len(s.b); k++ {
 				if !c.Thorough() && ri > 0 && k%3 != ti%3 {
@@ -704,15 +849,24 @@ func genStream(c *Ctx) {
 		// the DAG-JSON form
 		if js, err := s.t.ToDagJson(s.iss.priv); err == nil {
 			if _, err := token.FromDagJsonReader(bytes.NewReader(js)); err == nil {
+				if _, err := token.FromDagJsonReader(bytes.NewReader(append(append([]byte{}, js...), js...))); err == nil {
+					agree = false
+				}
+				if _, err := token.FromDagJsonReader(iotest.DataErrReader(bytes.NewReader(append(append([]byte{}, js...), '1')))); err == nil {
+					agree = false
+				}
+				if _, err := token.FromDagJsonReader(&faultReader{b: js, k: len(js), chunk: 5, err: errInjected}); err == nil {
+					swallowed = append(swallowed, 9*1000000+len(js))
+				}
 				for k := 0; k < len(js); k++ {
 					if !c.Thorough() && k%3 != ti%3 {
 						continue
 					}
 					if _, err := token.FromDagJsonReader(&faultReader{b: js, k: k, chunk: 5, err: errInjected}); err == nil {
-						swallowed = append(swallowed, 3*1000000+k)
+						swallowed = append(swallowed, 9*1000000+k)
 					}
 					if _, err := token.FromDagJsonReader(&faultReader{b: js, k: k, chunk: 5, err: io.EOF}); err == nil {
-						early = append(early, 3*1000000+k)
+						early = append(early, 9*1000000+k)
 					}
 				}
 			}
@@ -747,6 +901,13 @@ func genStream(c *Ctx) {
 				d := sha256.Sum256(b3.Bytes())
 				if err != nil || !bytes.Equal(id.Bytes(), append([]byte{1, 0x71, 0x12, 0x20}, d[:]...)) {
 					agree = false
+				}
+			}
+			// a sink that takes fewer bytes than it is given without saying so (capacity reached)
+			for _, capBytes := range []int{0, 1, full.buf.Len() / 2, full.buf.Len() - 1} {
+				ss := &shortSink{room: capBytes}
+				if err := wr.f(ss); err == nil && ss.short {
+					swallowedW = append(swallowedW, wi*1000000+900000+capBytes)
 				}
 			}
 			for j := 0; j < full.calls+2; j++ {
@@ -818,6 +979,12 @@ func genStream(c *Ctx) {
 				// same tokens come back from what the stream writer produced
 				if ctnObs(f.read(full.buf.Bytes())) != base {
 					agree = false
+				}
+				for _, capBytes := range []int{0, 1, full.buf.Len() / 2, full.buf.Len() - 1} {
+					ss := &shortSink{room: capBytes}
+					if err := f.writeStream(w, ss); err == nil && ss.short {
+						swallowedW = append(swallowedW, 900000+capBytes)
+					}
 				}
 				for j := 0; j < full.calls+4; j++ {
 					// (map iteration order changes the sequence of write calls from run to run:
